@@ -342,8 +342,9 @@ def r4_syscall_gate(ctx, F):
     for name in ("register_local_call", "register_external_call"):
         f = F.fn(r"^miden_assembly::assembler::context::AssemblyContext::%s$" % name)
         ctx.inst(key=name, nontrivial=True)
-        ok = any(s["r"].get("variant") in ("CallInKernel",) for b in f.blocks for s in b["s"] if s["r"]["k"] == "agg") or \
-            any(c.endswith("AssemblyError::call_in_kernel") for bi, c, t in f.calls())
+        fam = family(F, f)
+        ok = any(s["r"].get("variant") in ("CallInKernel",) for g in fam for b in g.blocks for s in b["s"] if s["r"]["k"] == "agg") or \
+            any(c.endswith("AssemblyError::call_in_kernel") for g in fam for bi, c, t in g.calls())
         ctx.oblig(ok)
         if not ok:
             ctx.violation("call-in-kernel|%s" % name, f.loc(), "%s must reject call/syscall inside a kernel (AssemblyError::call_in_kernel)" % name)
